@@ -201,7 +201,7 @@ def stopBin : PTok → Bool
 theorem stopBin_mode (t : PTok) (h : stopBin t = true) : modeOK false false t = true := by
   cases t <;> simp_all [stopBin, modeOK]
 
-theorem binTail_stop (cx : PCtx) (fuel : Nat) (lhs : CTree) (s : PState) (t : PTok) (ts : List PTok)
+theorem binTail_stop (cx : PCtx) (fuel : Nat) (lhs : CTree) (s : ParseSt) (t : PTok) (ts : List PTok)
     (hs : Up s (t :: ts)) (ht : stopBin t = true) :
     wp (parseBinTail cx fuel lhs) (fun a s' => a = lhs ∧ Up s' (t :: ts)) NoErr True s := by
   cases fuel with
